@@ -72,13 +72,27 @@ Reinstall(c) ==
   /\ UNCHANGED auto
   /\ act' = [name |-> "Reinstall", c |-> c]
 
+(* The server tells h that c's identity changed; h fetches c's bundle.  With an    *)
+(* accepted known-or-new identity the session is (re)built from the bundle; under  *)
+(* automatic trust the new key is remembered and the session is rebuilt later (at   *)
+(* the retry the stale session provokes).                                           *)
+Notify(h, c) ==
+  /\ h # c
+  /\ IF pin[h][c] \in {0, gen[c]} \/ TrustsAll
+       THEN pin' = [pin EXCEPT ![h][c] = gen[c]] /\ sess' = [sess EXCEPT ![h][c] = gen[c]]
+       ELSE IF auto[h] THEN pin' = [pin EXCEPT ![h][c] = gen[c]] /\ UNCHANGED sess
+       ELSE UNCHANGED <<pin, sess>>
+  /\ last' = [h |-> "", c |-> "", delivered |-> FALSE]
+  /\ UNCHANGED <<gen, auto>>
+  /\ act' = [name |-> "Notify", h |-> h, c |-> c]
+
 Restart(h) == /\ UNCHANGED <<gen, pin, sess, auto>> /\ last' = [h |-> "", c |-> "", delivered |-> FALSE]
               /\ act' = [name |-> "Restart", h |-> h]
 SetAuto(h, v) == /\ auto[h] # v /\ auto' = [auto EXCEPT ![h] = v] /\ UNCHANGED <<gen, pin, sess>>
                  /\ last' = [h |-> "", c |-> "", delivered |-> FALSE]
                  /\ act' = [name |-> "SetAuto", h |-> h, v |-> v]
 
-Next == \/ \E h, c \in Acc : Send(h, c)
+Next == \/ \E h, c \in Acc : Send(h, c) \/ Notify(h, c)
         \/ \E c \in Acc : Reinstall(c) \/ Restart(c)
         \/ \E h \in Acc, v \in BOOLEAN : SetAuto(h, v)
 Spec == Init /\ [][Next]_<<vars, act>>
